@@ -100,10 +100,42 @@ def impl_to_spec(c, tier):
     c.cov["binding_selftest"] = "verdict of event %d flipped -> rejected after %d events" % (k, matched)
 
 
+def sessions(c, tier):
+    """PacketSessions: the window is per SERVER session at the receiving client; every history of (server session, id)
+    presentations TLC exports is replayed on the real client datagram codec with replies made by the real server codec."""
+    r = tlc("PacketSessions", "PacketSessions.cfg", workers=4, timeout=900)
+    c.tlc_stats(r)
+    if not r.ok:
+        c.violation("model: PacketSessions violates %s" % (r.violated or r.error), {"tail": r.out[-2000:]})
+    seen = {}
+    for d in ("OneWindow", "ResetOnFlip"):
+        rr = tlc("PacketSessions", "PacketSessions_dev_%s.cfg" % d, workers=1, timeout=300, heap="1g")
+        seen[d] = rr.violated
+        if not rr.violated:
+            raise vlib.ToolError("anti-vacuity: deviation %s not detected by the PacketSessions model" % d)
+    c.cov.setdefault("deviations_detected_by_model", {}).update(seen)
+    hist = r.replay
+    if not hist:
+        raise vlib.ToolError("no session histories exported")
+    if tier == "quick":
+        rnd = random.Random(vlib.seed())
+        hist = rnd.sample(hist, min(len(hist), 2500))
+    rows = vh_json_lines(["c11-sessions"], stdin="\n".join(json.dumps(h) for h in hist) + "\n", timeout=1800)
+    summ = rows[-1]
+    c.cov["session_histories_in_model"] = len(r.replay)
+    c.add("session_histories_replayed", summ["histories"])
+    c.sample({"session_history": hist[len(hist) // 3]})
+    for o in rows[:-1]:
+        if o.get("mismatch"):
+            c.violation("replies under several server sessions (%s): the real client's verdicts %s differ from PacketSessions for %s" %
+                        (o["cipher"], o.get("got", o.get("error")), json.dumps([[e["s"], e["id"], e["ok"]] for e in o["hist"]])), o)
+
+
 def run(tier):
     c = Check("C11", tier, "model_checking")
     c.cov["traces_validated_against_impl"] = 0
     model(c, tier)
+    sessions(c, tier)
     spec_to_impl(c, tier)
     impl_to_spec(c, tier)
     try:
